@@ -59,6 +59,7 @@ type FuncContract struct {
 	LoopAssume map[int][]*Clause
 	Decreases *Clause
 	GhostDefs []*Clause
+	AtReturn []*Clause
 	Assumes  []*Clause
 	Opts     map[string]string
 	Line     int
@@ -248,6 +249,12 @@ func parseContractFile(path, pkgPath string, cs *Contracts) error {
 					return err
 				}
 				cur.Decreases = cl
+			case "atreturn":
+				cl, err := mkClause("atreturn", rest)
+				if err != nil {
+					return err
+				}
+				cur.AtReturn = append(cur.AtReturn, cl)
 			case "ghostdef":
 				cl, err := mkClause("ghostdef", rest)
 				if err != nil {
